@@ -21,8 +21,10 @@ def run_one(name: str):
         if r.returncode != 0:
             return name, [("-", -1, "patch does not apply")]
         env = dict(os.environ, PYTHONPATH=SNAP)
-        for p in PROPS:
-            q = subprocess.run(["/venv/bin/python", "-m", "sa.run", "--property", p, "--repo", tmp, "--no-write"], cwd=SNAP, capture_output=True, text=True, env=env)
+        only = json.loads(os.environ.get("TWIN_ONLY", "{}"))  # {"C01": "R01.15,R01.16", ...}: re-check just these rules (after adding rules)
+        for p in (sorted(only) if only else PROPS):
+            extra = ["--rule", only[p]] if only else []
+            q = subprocess.run(["/venv/bin/python", "-m", "sa.run", "--property", p, "--repo", tmp, "--no-write", *extra], cwd=SNAP, capture_output=True, text=True, env=env)
             if q.returncode != 0:
                 first = next((l.strip()[:220] for l in q.stdout.splitlines() if l.strip().startswith(("violation:", "ANALYSIS-ERROR"))), "")
                 out.append((p, q.returncode, first))
